@@ -483,6 +483,10 @@ let dispatch (op : string) (args : string list) : string =
   | "csv" -> do_csv args
   | "name" -> do_name args
   | "mbrows" -> do_mbrows args
+  | "subreader" -> (match args with
+      | [st; ln; total] -> (match sub_reader subreader_variant (n_of_string st) (n_of_string ln) (n_of_string total) with
+          | Ok (a, b) -> "ok:" ^ string_of_n a ^ "-" ^ string_of_n b | Err -> "err" | Panic -> "panic" | Overflow -> "overflow")
+      | _ -> "?subreader-args")
   | "tj.merge" | "tj.limit" ->
       (* a document: <bounds>;<center>;<values>  with bounds `w,s,e,n`, center `a,b,c`, values `hexkey:B<n>` | `hexkey:S<hex>` |
          `hexkey:L<hex>.<hex>...` joined by '&'; "-" = absent / empty *)
